@@ -1254,7 +1254,19 @@ impl Check for C17 {
                 22 => Ev::Key("Enter".into()),
                 _ => Ev::Key("Backspace".into()),
             };
+            let again = match &e {
+                Ev::Line(l) if rng.chance(1, 8) => Some(l.clone()),
+                _ => None,
+            };
             events.push(e);
+            if let Some(l) = again {
+                // the same line once more, in another letter case (path included) or unchanged
+                events.push(Ev::Line(match rng.below(3) {
+                    0 => l.to_uppercase(),
+                    1 => l.to_lowercase(),
+                    _ => l,
+                }));
+            }
         }
         if rng.chance(1, 6) {
             events.push(if rng.bool() { Ev::Ctrl('c') } else { Ev::Line("quit".into()) });
